@@ -313,9 +313,12 @@ def poly_record(rng, n):
     return gens.float_record(rng, n, style='motion' if kind == 'motion' else 'gauss')[0]
 
 
-def poly_impl(entry, y, dt, k):
+def poly_impl(entry, y, dt, k, store=None):
     import eqsig
     from eqsig.fns.generic import remove_poly
+    if store is not None:          # array-level entry, record kept as integers (counts), a Python list of ints, or float32
+        arg = [int(v) for v in y] if store == 'list' else np.array(y).astype(store)
+        return np.array(remove_poly(arg, k), dtype=float), dt
     if entry == 0:
         s = eqsig.Signal(np.array(y), dt)
         s.remove_poly(k)
@@ -334,8 +337,22 @@ def poly_case(rep, rng, cases, sames, maxn):
     dt = rng.choice([0.01, 0.02, 0.125])
     entry = rng.randrange(3)
     name = ['Signal.remove_poly', 'AccSignal.remove_poly', 'eqsig.fns.generic.remove_poly'][entry]
+    store = None
+    if entry == 2 and rng.random() < 0.5:
+        # the same numbers stored otherwise: the residual is that of the same least-squares problem (and a float array)
+        store = rng.choice([np.int64, np.int32, 'list', np.float32])
+        if store is np.float32:
+            y = np.array(y, dtype=np.float32).astype(float)
+        else:
+            y = np.round(np.array(y, dtype=float) * rng.choice([3, 10, 100]))
+        if len(set(y)) <= 1:
+            store = None
+        else:
+            name += '[%s record]' % (store if store == 'list' else np.dtype(store).name)
     args = {'values': list(map(float, y)), 'dt': dt, 'poly_fit': k}
-    r = guarded(poly_impl, entry, y, dt, k)
+    if store is not None:
+        args['stored_as'] = store if store == 'list' else np.dtype(store).name
+    r = guarded(poly_impl, entry, y, dt, k, store)
     if isinstance(r, ImplError):
         rep.violation(name, {'function': name, 'args': args, 'impl_error': str(r)})
         return
@@ -530,7 +547,9 @@ def replay_call(rp):
         return 'not replayable from the file: %r' % (a.get('cut_off'),)
     if 'remove_poly' in fn:
         if fn.startswith('eqsig.fns'):
-            return remove_poly(np.array(a['values'], dtype=float), a['poly_fit'])
+            st = a.get('stored_as')
+            arg = [int(v) for v in a['values']] if st == 'list' else np.array(a['values'], dtype=float).astype(st or float)
+            return remove_poly(arg, a['poly_fit'])
         s = (eqsig.AccSignal if fn.startswith('Acc') else eqsig.Signal)(np.array(a['values'], dtype=float), a['dt'])
         s.remove_poly(a['poly_fit'])
         return s.values
